@@ -11,7 +11,7 @@ usage: mutsweep.py <file under src/> [max_mutants] [start_index]
 import json, os, re, subprocess, sys, time, hashlib, shutil
 
 V = os.path.dirname(os.path.dirname(os.path.abspath(__file__)))
-WT = "/tmp/vsweep/wt"
+WT = "/tmp/vsweep/wt-" + (os.path.basename(sys.argv[1]).replace(".", "_") if len(sys.argv) > 1 else "x")
 
 
 def sh(cmd, cwd=None, timeout=3600):
